@@ -18,18 +18,18 @@ import (
 
 // Op is one step of a history.
 type Op struct {
-	Kind  string           `json:"op"`
-	K     int              `json:"k,omitempty"`     // key index
-	V     verifkit.ValSpec `json:"v,omitempty"`     // value (set)
-	Flag  uint32           `json:"flag,omitempty"`  // client flags (set)
-	Rev   int32            `json:"rev,omitempty"`   // explicit revision (set), 0 = auto
+	Kind string           `json:"op"`
+	K    int              `json:"k,omitempty"`    // key index
+	V    verifkit.ValSpec `json:"v,omitempty"`    // value (set)
+	Flag uint32           `json:"flag,omitempty"` // client flags (set)
+	Rev  int32            `json:"rev,omitempty"`  // explicit revision (set), 0 = auto
 	// RevRel: Rev is relative to the key's current absolute version (resolved when the op runs; results < 1 mean auto)
 	RevRel bool `json:"revrel,omitempty"`
 	// Same: 1 = the key's current value and flags again, 2 = current value with the op's flags,
 	// 3 = a value of the same length with the same first/last 512 bytes (equal 16-bit value hash) if the current one is > 1 KB
-	Same int `json:"same,omitempty"`
-	Delta int              `json:"delta,omitempty"` // incr
-	Force bool             `json:"force,omitempty"` // flush
+	Same  int  `json:"same,omitempty"`
+	Delta int  `json:"delta,omitempty"` // incr
+	Force bool `json:"force,omitempty"` // flush
 	// reopen: which index files to delete. Mode: "none","all","hash","hints","last","subset"
 	Mask    string `json:"mask,omitempty"`
 	MaskSel uint64 `json:"sel,omitempty"` // bit i set => delete the i-th index file (mode subset)
@@ -131,16 +131,16 @@ type History struct {
 
 // runOpts selects oracle variants.
 type runOpts struct {
-	property      string
-	collisions    bool // colliding keys present: versions of colliding keys are not compared
-	noFinalSweep  bool
-	keepStore     bool // leave the store open in r.store at the end
-	onStep        func(r *histRunner, i int, op *Op) error
-	afterGC       func(r *histRunner, bucket, begin, end int, merge bool, before *gcBefore) error
-	skipReopenGC  bool
-	beforeGC      func(r *histRunner)
-	hookExtra     func(r *histRunner) func(name string, args ...interface{}) // installed after the hook state is reset
-	noCloseAtEnd  bool
+	property     string
+	collisions   bool // colliding keys present: versions of colliding keys are not compared
+	noFinalSweep bool
+	keepStore    bool // leave the store open in r.store at the end
+	onStep       func(r *histRunner, i int, op *Op) error
+	afterGC      func(r *histRunner, bucket, begin, end int, merge bool, before *gcBefore) error
+	skipReopenGC bool
+	beforeGC     func(r *histRunner)
+	hookExtra    func(r *histRunner) func(name string, args ...interface{}) // installed after the hook state is reset
+	noCloseAtEnd bool
 }
 
 type histRunner struct {
@@ -153,25 +153,25 @@ type histRunner struct {
 	ts     uint32
 	inGrp  []bool
 
-	lastResolved Op
-	wroteNow     bool // the current op stored a new record for its key (colliding keys: refreshes stale bookkeeping)
-	fresh        bool // C17: new records carry a timestamp one hour in the past instead of 1970
+	lastResolved     Op
+	wroteNow         bool // the current op stored a new record for its key (colliding keys: refreshes stale bookkeeping)
+	fresh            bool // C17: new records carry a timestamp one hour in the past instead of 1970
 	clientWritesInGC int
-	preGC        []*mkey
-	curOp        int
-	wroteUnserved map[int]bool
-	readsAny     map[string]int
-	listedAfter  int
-	prevVals     map[int][]prevVal // colliding keys: every value ever acknowledged (for the C13-merge-stale exclusion)
-	staleOK      map[int]string // key -> id of the known finding that tolerates an older own value
-	excluded     map[string]int
-	collideWrites int
-	reads        map[string]int // residence -> count of checked reads of keys with >=1 overwrite/delete
-	gcPasses     int
-	gcReleased   int64
-	gcKept       int64
-	reopens      int
-	deletedFiles int
+	preGC            []*mkey
+	curOp            int
+	wroteUnserved    map[int]bool
+	readsAny         map[string]int
+	listedAfter      int
+	prevVals         map[int][]prevVal // colliding keys: every value ever acknowledged (for the C13-merge-stale exclusion)
+	staleOK          map[int]string    // key -> id of the known finding that tolerates an older own value
+	excluded         map[string]int
+	collideWrites    int
+	reads            map[string]int // residence -> count of checked reads of keys with >=1 overwrite/delete
+	gcPasses         int
+	gcReleased       int64
+	gcKept           int64
+	reopens          int
+	deletedFiles     int
 }
 
 func (r *histRunner) label(l string) { r.labels[l] = true }
